@@ -36,6 +36,9 @@ pub enum Ty {
     /// 2 type parameter with bound, 3 type parameter with where-clause
     DeriveNamed(u8, Vec<Ty>),
     DeriveTuple(u8, Vec<Ty>),
+    /// one derived struct with a const generic parameter that selects the resource it writes,
+    /// instantiated with this constant
+    ConstLane(usize),
 }
 
 struct Alloc {
@@ -153,14 +156,14 @@ pub fn reads(t: &Ty) -> Vec<usize> {
 }
 pub fn writes(t: &Ty) -> Vec<usize> {
     match t {
-        Ty::Write(r) | Ty::WriteExpect(r) | Ty::WriteH(r, _) | Ty::OptWrite(r) => vec![*r],
+        Ty::Write(r) | Ty::WriteExpect(r) | Ty::WriteH(r, _) | Ty::OptWrite(r) | Ty::ConstLane(r) => vec![*r],
         Ty::Tuple(m) | Ty::DeriveNamed(_, m) | Ty::DeriveTuple(_, m) => m.iter().flat_map(writes).collect(),
         _ => vec![],
     }
 }
 pub fn provides(t: &Ty) -> Vec<usize> {
     match t {
-        Ty::Read(r) | Ty::Write(r) | Ty::ReadH(r, _) | Ty::WriteH(r, _) => vec![*r],
+        Ty::Read(r) | Ty::Write(r) | Ty::ReadH(r, _) | Ty::WriteH(r, _) | Ty::ConstLane(r) => vec![*r],
         Ty::Tuple(m) | Ty::DeriveNamed(_, m) | Ty::DeriveTuple(_, m) => m.iter().flat_map(provides).collect(),
         _ => vec![],
     }
@@ -174,7 +177,7 @@ fn optional_members(t: &Ty) -> Vec<usize> {
 }
 fn mandatory_members(t: &Ty) -> Vec<usize> {
     match t {
-        Ty::Read(r) | Ty::Write(r) | Ty::ReadExpect(r) | Ty::WriteExpect(r) | Ty::ReadH(r, _) | Ty::WriteH(r, _) => vec![*r],
+        Ty::Read(r) | Ty::Write(r) | Ty::ReadExpect(r) | Ty::WriteExpect(r) | Ty::ReadH(r, _) | Ty::WriteH(r, _) | Ty::ConstLane(r) => vec![*r],
         Ty::Tuple(m) | Ty::DeriveNamed(_, m) | Ty::DeriveTuple(_, m) => m.iter().flat_map(mandatory_members).collect(),
         _ => vec![],
     }
@@ -264,6 +267,7 @@ impl Emit {
             Ty::OptWrite(r) => format!("Option<Write<'a, R<{}>>>", r),
             Ty::Unit => "()".into(),
             Ty::Phantom => "PhantomData<u32>".into(),
+            Ty::ConstLane(r) => format!("GLane<'a, {}>", r),
             Ty::Tuple(m) => {
                 let parts: Vec<String> = m.iter().map(|x| self.ty(x, case)).collect();
                 let plain = format!("({},)", parts.join(", "));
@@ -443,7 +447,7 @@ pub fn emit_program(descs: &[(Ty, Vec<u16>)]) -> String {
         let list = |v: Vec<usize>| format!("&{:?}", v);
         let masks: Vec<String> = masks_for(t, stream).iter().map(|m| format!("{:#x}", m)).collect();
         body.push_str(&format!(
-            "    {{\n        static E: Expect = Expect {{ name: \"T{i}\", descriptor: \"{desc}\", reads: {r}, writes: {w}, provides: {p}, optional: {o}, handlers: {h}, masks: &[{m}] }};\n        accessor_agrees::<T{i}>(rep, &E);\n        check_type(rep, &E,\n            (<T{i} as SystemData>::reads(), <T{i} as SystemData>::writes()),\n            &|world: &World, probe: &mut dyn FnMut()| {{ let v: T{i} = SystemData::fetch(world); probe(); drop(v); }},\n            &|world: &mut World| {{ <T{i} as SystemData>::setup(world); }});\n    }}\n",
+            "    {{\n        static E: Expect = Expect {{ name: \"T{i}\", descriptor: \"{desc}\", reads: {r}, writes: {w}, provides: {p}, optional: {o}, handlers: {h}, masks: &[{m}] }};\n        accessor_agrees::<T{i}>(rep, &E);\n        check_type(rep, &E,\n            (<T{i} as SystemData>::reads(), <T{i} as SystemData>::writes()),\n            &|world: &World, probe: &mut dyn FnMut()| {{ let v: T{i} = SystemData::fetch(world); probe(); drop(v); }},\n            &|world: &mut World| {{ <T{i} as SystemData>::setup(world); }},\n            &|world: &mut World| {{ use shred::Accessor; let acc = <shred::StaticAccessor<T{i}> as Accessor>::try_new().expect(\"static accessor\"); <T{i} as shred::DynamicSystemData>::setup(&acc, world); }});\n    }}\n",
             i = i,
             desc = desc,
             r = list(reads(t)),
@@ -471,7 +475,7 @@ pub fn emit_program(descs: &[(Ty, Vec<u16>)]) -> String {
     }
     body.push_str(&local);
     format!(
-        "// generated by vcheck (C06); do not edit\n#![allow(non_camel_case_types, clippy::all)]\nuse std::marker::PhantomData;\nuse shred::{{Read, ReadExpect, ResourceId, SystemData, World, Write, WriteExpect}};\nuse crate::rt::*;\n\nmacro_rules! Rd {{ ($l:lifetime, $t:ty) => {{ Read<$l, $t> }}; }}\nmacro_rules! Wr {{ ($l:lifetime, $t:ty) => {{ Write<$l, $t> }}; }}\npub type RdA<'a, const N: usize> = Read<'a, R<N>>;\npub type WrA<'a, const N: usize> = Write<'a, R<N>>;\n\npub trait Bundle<'a> {{\n    type Data: SystemData<'a>;\n}}\n\n#[derive(SystemData)]\npub struct GOnlyB<'a, T: SystemData<'a>> {{\n    pub inner: T,\n    pub m: PhantomData<&'a ()>,\n}}\n#[derive(SystemData)]\npub struct GOnlyW<'a, T>\nwhere\n    T: SystemData<'a>,\n{{\n    pub inner: T,\n    pub m: PhantomData<&'a ()>,\n}}\n\n{}\n{}\npub fn run(rep: &mut Report) {{\n{}}}\n",
+        "// generated by vcheck (C06); do not edit\n#![allow(non_camel_case_types, clippy::all)]\nuse std::marker::PhantomData;\nuse shred::{{Read, ReadExpect, ResourceId, SystemData, World, Write, WriteExpect}};\nuse crate::rt::*;\n\nmacro_rules! Rd {{ ($l:lifetime, $t:ty) => {{ Read<$l, $t> }}; }}\nmacro_rules! Wr {{ ($l:lifetime, $t:ty) => {{ Write<$l, $t> }}; }}\npub type RdA<'a, const N: usize> = Read<'a, R<N>>;\npub type WrA<'a, const N: usize> = Write<'a, R<N>>;\n\npub trait Bundle<'a> {{\n    type Data: SystemData<'a>;\n}}\n\n#[derive(SystemData)]\npub struct GOnlyB<'a, T: SystemData<'a>> {{\n    pub inner: T,\n    pub m: PhantomData<&'a ()>,\n}}\n#[derive(SystemData)]\npub struct GLane<'a, const N: usize> {{\n    pub lane: Write<'a, R<N>>,\n}}\n#[derive(SystemData)]\npub struct GOnlyW<'a, T>\nwhere\n    T: SystemData<'a>,\n{{\n    pub inner: T,\n    pub m: PhantomData<&'a ()>,\n}}\n\n{}\n{}\npub fn run(rep: &mut Report) {{\n{}}}\n",
         e.defs, aliases, body
     )
 }
@@ -601,6 +605,12 @@ pub fn run_c06(quick: bool, seed: u64) -> SubResult {
         // every tuple arity 1..26 in every program
         for arity in 1..=26usize {
             descs.push((gen_desc(&streams[arity - 1], Some(arity)), streams[arity - 1].clone()));
+        }
+        // one const-generic derived struct under several constants (in one process)
+        for j in 0..3usize {
+            let s = &streams[26 + j];
+            let n = (s.first().cloned().unwrap_or(7) as usize + 13 * j) % NR;
+            descs.push((Ty::ConstLane(n), s.clone()));
         }
         // derived structs are not limited to 26 fields
         for j in 0..4usize {
